@@ -85,6 +85,7 @@ fn install_panic_hook() {
     std::panic::set_hook(Box::new(|info| {
         let loc = info.location().map(|l| format!("{}:{}:{}", l.file(), l.line(), l.column())).unwrap_or_else(|| "?".into());
         let msg = info.payload().downcast_ref::<&str>().map(|s| s.to_string()).or_else(|| info.payload().downcast_ref::<String>().cloned()).unwrap_or_else(|| "?".into());
+        shm::panic_note(&format!("{} :: {}", loc, msg));
         #[allow(static_mut_refs)]
         unsafe {
             if PANIC_INFO.is_none() {
@@ -128,7 +129,7 @@ pub fn sim_config(desc: &RunDesc, nthreads: usize) -> SimConfig {
     SimConfig {
         seed: desc.seed,
         strategy: build_strategy(cfg, nthreads, desc.seed),
-        stall: cfg.stall.as_ref().map(|s| Stall { victim: s.victim as usize, site: s.site, nth: s.nth, k: s.k, only_unpinned: false, hits: 0, frozen_at_epoch: None, done: false }),
+        stall: cfg.stall.as_ref().map(|s| Stall { victim: s.victim as usize, site: s.site, nth: s.nth, k: s.k, release_signal: s.release_signal, only_unpinned: false, hits: 0, frozen_at_epoch: None, done: false }),
         step_cap: cfg.step_cap,
         replay: desc.schedule.clone(),
         default_prop: desc.prop.clone(),
@@ -229,6 +230,12 @@ fn finish_interp(desc: &RunDesc, max_rounds: u64) -> ! {
 pub fn run_in_child(desc: &RunDesc) -> ! {
     unsafe {
         libc::alarm(60);
+        if std::env::var_os("VERIF_CHILD_STDERR").is_none() {
+            let fd = libc::open(b"/dev/null\0".as_ptr() as *const libc::c_char, libc::O_WRONLY);
+            if fd >= 0 {
+                libc::dup2(fd, 2);
+            }
+        }
     }
     match desc.family.as_str() {
         "queue" => crate::fam_queue::run(desc),
@@ -257,20 +264,29 @@ pub enum Res {
 pub struct RunResult {
     pub res: Res,
     pub json: J,
-    pub sched: Vec<(u32, u32)>,
+    pub sched: Vec<(u32, u32, u32, u32)>,
+    pub buggify: Vec<u64>,
 }
 
 impl RunResult {
     pub fn signature(&self) -> String {
         match &self.res {
             Res::Violation => self.json.gets("signature").to_string(),
-            Res::Crash(sig) => format!("{}/crash/signal-{}", self.json.gets("prop"), sig),
+            Res::Crash(sig) => match self.json.get("panic_at").and_then(|x| x.as_str()) {
+                Some(at) => format!("{}/abort-after-panic/{}", self.json.gets("prop"), at),
+                None => format!("{}/crash/signal-{}", self.json.gets("prop"), sig),
+            },
             Res::StepCap => format!("{}/step-cap", self.json.gets("prop")),
             _ => String::new(),
         }
     }
-    pub fn prop(&self) -> String {
-        self.json.gets("prop").to_string()
+    pub fn props(&self) -> Vec<String> {
+        let v: Vec<String> = self.json.geta("props").iter().filter_map(|x| x.as_str().map(|s| s.to_string())).collect();
+        if v.is_empty() {
+            vec![self.json.gets("prop").to_string()]
+        } else {
+            v
+        }
     }
 }
 
@@ -294,6 +310,7 @@ pub fn fork_run(desc: &RunDesc) -> RunResult {
             }
         }
         let sched = shm::read_sched();
+        let buggify = shm::read_bug();
         if let Some(txt) = shm::read_result() {
             let json = J::parse(&txt).unwrap_or_else(|e| J::obj().set("outcome", "harness_error").set("detail", format!("bad result json: {}", e)));
             let res = match json.gets("outcome") {
@@ -306,7 +323,7 @@ pub fn fork_run(desc: &RunDesc) -> RunResult {
             if matches!(res, Res::StepCap) {
                 json.put("prop", desc.prop.as_str());
             }
-            return RunResult { res, json, sched };
+            return RunResult { res, json, sched, buggify };
         }
         let (res, what) = if libc::WIFSIGNALED(status) {
             let sig = libc::WTERMSIG(status);
@@ -318,7 +335,17 @@ pub fn fork_run(desc: &RunDesc) -> RunResult {
         } else {
             (Res::Crash(-libc::WEXITSTATUS(status)), format!("child exited with status {} without a result", libc::WEXITSTATUS(status)))
         };
-        let json = J::obj().set("outcome", "crash").set("prop", desc.prop.as_str()).set("detail", what);
-        RunResult { res, json, sched }
+        let mut json = J::obj().set("outcome", "crash").set("prop", desc.prop.as_str());
+        let mut what = what;
+        if let Some(p) = shm::read_panic() {
+            // a panic that could not unwind (thread-local destructor, nested panic): say where
+            let loc = p.split(" :: ").next().unwrap_or("").to_string();
+            let short = loc.rsplit("/repo/").next().unwrap_or(&loc).split(':').take(2).collect::<Vec<_>>().join(":");
+            what = format!("{}; panic before the abort: {}", what, p);
+            json.put("panic_at", short);
+            json.put("panic_in_library", loc.contains("/repo/"));
+        }
+        json.put("detail", what);
+        RunResult { res, json, sched, buggify }
     }
 }
